@@ -77,7 +77,16 @@ def _key(t):
     return repr(t)
 
 
-PHI_GUARD = {}      # repr(phi term) -> (condition, value when it holds, value when it does not) for joins written as combinators
+PHI_GUARD = {}      # repr(phi term) -> (condition, value when it holds, value when it does not); None when two joins with the same
+                    # values are selected by different tests (then the term alone does not determine the test)
+
+
+def remember_phi_guard(phi, guard):
+    k = repr(phi)
+    if k in PHI_GUARD and PHI_GUARD[k] != guard:
+        PHI_GUARD[k] = None
+    elif k not in PHI_GUARD:
+        PHI_GUARD[k] = guard
 
 
 def mk_phi(alts):
@@ -140,6 +149,17 @@ def simplify(t):
                 else:
                     rest.append(a)
             args = tuple(sorted(rest + [const(acc)], key=_key))
+        if name == "Shr" and len(args) == 2 and args[0][0] == "op" and args[0][1] == "BitAnd" and len(args[0][2]) == 2:
+            # (h & !((1 << b) - 1)) >> b  ==  h >> b : blanking the bits that the shift drops anyway
+            def _nc(x):
+                return _nc(x[2]) if x[0] == "cast" and len(x) == 3 else x
+            low_mask = ("op", "Sub", (("op", "Shl", (const(1), _nc(args[1]))), const(1)))
+            for u, v in (args[0][2], args[0][2][::-1]):
+                if v[0] == "op" and v[1] == "Not" and len(v[2]) == 1:
+                    m_ = v[2][0]
+                    if m_[0] == "op" and m_[1] == "Sub" and len(m_[2]) == 2 and m_[2][1] == const(1) and m_[2][0][0] == "op" and m_[2][0][1] == "Shl" \
+                            and m_[2][0][2][0] == const(1) and _nc(m_[2][0][2][1]) == _nc(args[1]):
+                        return simplify(("op", "Shr", (u, args[1])))
         if name == "Add":
             args = tuple(a for a in args if not (a[0] == "const" and a[1] == 0 and not isinstance(a[1], bool) and isinstance(a[1], int))) or (const(0),)
             if len(args) == 1:
@@ -251,13 +271,20 @@ def _resimplify(t):
     return t
 
 
+def _index_base(stream):
+    """the position of an item is not changed by adaptors that keep every item: enumerate().map(f).enumerate() counts like the source"""
+    while stream[0] in ("map", "enumerate") or (stream[0] == "call" and stream[1].endswith(("::cloned", "::copied", "::by_ref", "::into_iter", "::iter")) and len(stream[2]) == 1):
+        stream = stream[1] if stream[0] != "call" else stream[2][0]
+    return stream
+
+
 def elem_of(stream):
     """item term of a stream term"""
     k = stream[0]
     if k == "map":
         return apply_closure(stream[2], (elem_of(stream[1]),))
     if k == "enumerate":
-        return ("tuple", (("enum_idx", stream[1]), elem_of(stream[1])))
+        return ("tuple", (("enum_idx", _index_base(stream[1])), elem_of(stream[1])))
     if k == "zip":
         return ("tuple", (elem_of(stream[1]), elem_of(stream[2])))
     if k == "filter":
@@ -826,7 +853,24 @@ class TermBuilder:
         s1, e1 = up(p1)
         s2, e2 = up(p2)
         if s1 is None or s1 != s2 or e1 == e2:
-            return None
+            # arms with control flow of their own (an early return, calls, nested tests): the test is the switch that immediately
+            # dominates the join, each predecessor being reached through exactly one of its edges
+            dom = fn.dominators()
+            jb = [b for b in fn.succs(p1) if b in fn.succs(p2)]
+            s1 = None
+            if jb and jb[0] in dom:
+                ds = dom[jb[0]] - {jb[0]}
+                if ds:
+                    sd = max(ds, key=lambda d_: len(dom.get(d_, ())))
+                    if fn.blocks[sd].term.k == "switch":
+                        def edge_to(p_):
+                            es = [e_ for e_ in fn.succs(sd) if e_ == p_ or (p_ in dom and e_ in dom[p_])]
+                            return es[0] if len(es) == 1 else None
+                        e1, e2 = edge_to(p1), edge_to(p2)
+                        if e1 is not None and e2 is not None and e1 != e2:
+                            s1 = sd
+            if s1 is None:
+                return None
         t = fn.blocks[s1].term
         arms = {int(v): b for v, b in t.j["arms"]}
         other = t.j["otherwise"]
@@ -862,6 +906,9 @@ class TermBuilder:
         if cond[0] == "op" and cond[1] == "Not" and len(cond[2]) == 1:
             cond, a_true, a_false = cond[2][0], a_false, a_true
         if not (cond[0] == "op" and cond[1] == "Eq" and len(cond[2]) == 2):
+            r_ = mk_phi([a_true, a_false])
+            if r_[0] == "phi" and len(r_[1]) == 2:
+                remember_phi_guard(r_, (cond, a_true, a_false))
             return None
         A, B = cond[2]
         one, zero = const(1), const(0)
@@ -888,6 +935,10 @@ class TermBuilder:
             pterm = B if A == zero else A
             if a_false[2][0] == pterm and a_true[2][0][0] != "const":
                 return ("call", "ring::pred", (pterm, a_true[2][0]))
+        # no value idiom: the join stays a phi, but the test that selects between its two values is remembered
+        r_ = mk_phi([a_true, a_false])
+        if r_[0] == "phi" and len(r_[1]) == 2:
+            remember_phi_guard(r_, (cond, a_true, a_false))
         return None
 
     def _unsigned_term(self, t, bb):
@@ -1425,7 +1476,7 @@ class TermBuilder:
             if not (x[0] == "call" and x[1] == "<apply>"):
                 r = mk_phi([x, args[1]])
                 if r[0] == "phi":
-                    PHI_GUARD[repr(r)] = (c, x, args[1])
+                    remember_phi_guard(r, (c, x, args[1]))
                 return r
         # `a.checked_op(b).map_or(d, |v| g(v))`: g(a op b) when the operation does not overflow, else d
         if decl == "std::option::Option::map_or" and len(args) == 3 and args[0][0] == "call" and args[0][1] == "checked" and args[2][0] == "closure":
@@ -1433,7 +1484,7 @@ class TermBuilder:
             if not (y[0] == "call" and y[1] == "<apply>"):
                 r = mk_phi([y, args[1]])
                 if r[0] == "phi":
-                    PHI_GUARD[repr(r)] = (("call", "checked_ok", (args[0][2][0],)), y, args[1])
+                    remember_phi_guard(r, (("call", "checked_ok", (args[0][2][0],)), y, args[1]))
                 return r
         if name == "unwrap_or" and len(args) == 2 and args[0][0] == "adt" and args[0][2] in ("Some", "Ok") and len(args[0][3]) == 1:
             return args[0][3][0][1]
